@@ -42,7 +42,8 @@ CONFIGS = {
                   ("c1far", "channel", "WB_far", "S_c1", "M_c1"),
                   ("cctl", "channel", "WB_ctl", "S_ctl", "M_c1"),
                   ("cext", "channel", "WB_ext", "S_ext", "M_c1"),
-                  ("cecho", "channel", "NoWakers", "S_c2", "M_cg", "CECHO")],
+                  ("cecho", "channel", "NoWakers", "S_c2", "M_cg", "CECHO"),
+                  ("gdf", "channel", "NoWakers", "S_c2", "M_c1", "GDF")],
         "thorough": [("c3g", "channel", "NoWakers", "S_c3", "M_cg"),
                      ("c2", "channel", "NoWakers", "S_c2", "M_c1")],
     },
@@ -55,6 +56,10 @@ CONFIGS = {
                      ("p5", "piped", "NoWakers", "S_p5", "M_pp3")],
     },
 }
+
+# Which design of the channel's wake handler the tree has: one look at the closed flag per batch (the
+# pinned tree, finding F2) or one per message (the repaired tree).  Sync.tla follows it (constant ChanRecheck).
+CHAN_RECHECK = True
 
 ASSUME = [
     "A1 small scope: 2-3 threads, scripts of 1-4 operations; all interleavings of those are explored by TLC",
@@ -69,10 +74,12 @@ def write_cfg(name, kind, wb, sc, ms, ordset, orddrain, export, hp="NoHProg"):
     inv = "NoViolation Published NoDeadlock NoPanic" + (" ExportInv" if export else "")
     with open(path, "w") as f:
         cecho = "TRUE" if hp == "CECHO" else "FALSE"
-        hpn = "NoHProg" if hp == "CECHO" else hp
+        gdf = "TRUE" if hp == "GDF" else "FALSE"
+        hpn = "NoHProg" if hp in ("CECHO", "GDF") else hp
         f.write("SPECIFICATION Spec\nCONSTANTS\n  Kind = \"%s\"\n  WakerBits <- %s\n  Scripts <- %s\n  MainScript <- %s\n  HProg <- %s\n  CEcho = %s\n"
+                "  GDF = %s\n  ChanRecheck = %s\n"
                 "  OrdSet = \"%s\"\n  OrdDrain = \"%s\"\nINVARIANT %s\n%sCHECK_DEADLOCK FALSE\n"
-                % (kind, wb, sc, ms, hpn, cecho, ordset, orddrain, inv, "" if export else "VIEW View\n"))
+                % (kind, wb, sc, ms, hpn, cecho, gdf, "TRUE" if CHAN_RECHECK else "FALSE", ordset, orddrain, inv, "" if export else "VIEW View\n"))
     return os.path.basename(path)
 
 
@@ -221,6 +228,9 @@ def rand_scripts(rng, kind):
             return {"kind": "channel", "wakers": [8], "threads": threads, "main": main}
         if rng.random() < 0.6:
             main.insert(rng.randrange(0, len(main) + 1), ["dropguard"])
+        if rng.random() < 0.15:
+            # the Fwd target drops the guard when it is handed its first message (main never drops it itself)
+            return {"kind": "channel", "wakers": [], "threads": threads, "main": [m for m in main if m[0] != "dropguard"], "gdf": True}
         return {"kind": "channel", "wakers": [], "threads": threads, "main": main, "cecho": rng.random() < 0.2}
     if rng.random() < 0.12:
         # the worker sends a burst while the main thread keeps collecting: every message must arrive
